@@ -62,11 +62,12 @@ type hist struct {
 	childPresent, recreated        bool
 	destroyCount                   int
 	govMinGas                      sdkmath.LegacyDec
+	wideSlots                      [][]byte
 }
 
 // Run drives the C18 workload.
 func Run(run *vh.Run) {
-	n := run.N(8, 200)
+	n := run.N(16, 200) // histories; every second one adds a mid-history round trip
 	blocks := 40
 	workers := runtime.NumCPU()
 	if workers > 8 {
@@ -115,7 +116,7 @@ func Run(run *vh.Run) {
 			run.Violation(v.sig, v.label, v.detail)
 		}
 	}
-	run.Rule = "Histories = 40-block runs on real chains over all four (Erc20Native, StakingCPC) flag combinations x (finite, unlimited) block gas with non-default genesis fee-market params: 8 generated contracts (vh.GenProgram: SSTORE of zero and non-zero values, CREATE/CREATE2, SELFDESTRUCT) called with random data, a hand-written slot store (slots set, overwritten, set to zero), " +
+	run.Rule = "Histories = 40-block runs on real chains over all four (Erc20Native, StakingCPC) flag combinations x (finite, unlimited) block gas with non-default genesis fee-market params: 8 generated contracts (vh.GenProgram: SSTORE of zero and non-zero values, CREATE/CREATE2, SELFDESTRUCT) called with random data, a hand-written slot store (small and full-width random slot keys / values set, overwritten, set to zero), " +
 		"a CREATE2 factory whose child is created, self-destructed and re-created at the same address, accounts with storage but no code (init code that stores and returns empty code), gas burners filling blocks (finite block gas), dynamically deployed ERC-20 precompiles for extra bank denominations, approve() calls on native and dynamic ERC-20 precompiles (set, overwrite, reset to 0), " +
 		"vauth ownership proofs, and one passed governance proposal changing evm (extra EIP 1344), fee-market (min gas price) and cpc (whitelist) params. Round trip at the end of every history and additionally mid-history in every second one: export -> fresh app -> InitChain(export) as CometBFT would send it -> one empty block on both apps -> comparison of the custom modules' stores by item kind -> second export compared section-wise (evm, feemarket, cpc, vauth) with the export of the original app at the same height. " +
 		"Non-trivial = distinct (item kind present in the exported state x flag combination x block-gas variant)."
@@ -125,7 +126,7 @@ func Run(run *vh.Run) {
 		"the history of block hashes (BLOCKHASH opcode) restarts with any new genesis and is not compared; code blobs no account refers to are not compared",
 		"nonce / balance of contract accounts belong to x/auth and x/bank and are not part of this property",
 		"a stored all-zero storage value reads as 0 exactly like an absent slot and is treated as equal to it")
-	run.Floor("round trips completed", run.Get("round_trips"), int64(run.N(8, 200)))
+	run.Floor("round trips completed", run.Get("round_trips"), int64(run.N(4, 100)))
 	run.Floor("contracts with code compared", run.Get("cmp_contracts_with_code"), int64(run.N(60, 1500)))
 	run.Floor("non-zero storage slots compared", run.Get("cmp_storage_slots_nonzero"), int64(run.N(60, 1500)))
 	run.Floor("zero-valued stored slots in exported states", run.Get("state_zero_valued_slots"), int64(run.N(4, 100)))
@@ -172,6 +173,13 @@ func newHist(run *vh.Run, rec *recorder, label string, i int) *hist {
 		BaseFee: big.NewInt(int64(vh.Pick(r, []int{1_000_000_000, 7_000_000_000, 50_000_000_000}))), MinGasPrice: vh.Pick(r, []string{"0", "1000", "250000.5"})}
 	if h.finiteGas {
 		cfg.MaxGas = int64(vh.Pick(r, []int{3_000_000, 5_000_000, 8_000_000}))
+	}
+	for k := 0; k < 6; k++ {
+		sl := r.Bytes(32)
+		if k == 0 {
+			sl[0] = 0xff
+		}
+		h.wideSlots = append(h.wideSlots, sl)
 	}
 	h.w = vh.NewWorld(r, vh.WorldOpts{Chain: cfg, NumEOA: 6, Prog: vh.ProgOpts{MaxLen: 7, Depth: 2}})
 	h.c = h.w.C
@@ -319,13 +327,26 @@ func (h *hist) play(blocks int) {
 		}
 		// slot store: set / overwrite / zero
 		for k := r.Range(0, 2); k > 0; k-- {
-			slot := uint64(r.Intn(12))
-			val := uint64(0)
-			if r.Chance(2, 3) {
-				val = 1 + r.U64()%1_000_000
+			// small slots with small values, or full-width random slots (from a pool of 6, so that
+			// they get overwritten and zeroed too) with full-width random values
+			slot, val := vh.WordU(uint64(r.Intn(12))), vh.WordU(0)
+			if r.Chance(1, 3) {
+				slot = h.wideSlots[r.Intn(len(h.wideSlots))]
+				if r.Chance(3, 4) {
+					val = r.Bytes(32)
+					if r.Chance(1, 4) {
+						val[0] = 0xff // high bit set
+					}
+					if r.Chance(1, 4) {
+						copy(val, make([]byte, 20)) // leading zero bytes
+					}
+				}
+				h.run.Count("wide_slot_writes", 1)
+			} else if r.Chance(2, 3) {
+				val = vh.WordU(1 + r.U64()%1_000_000)
 			}
 			to := h.storeC
-			txs = append(txs, w.PlanEth(e0, &to, nil, 100_000, append(vh.WordU(slot), vh.WordU(val)...), "ok", nil).Bytes)
+			txs = append(txs, w.PlanEth(e0, &to, nil, 100_000, append(append([]byte{}, slot...), val...), "ok", nil).Bytes)
 		}
 		// factory life cycle: create -> destroy -> re-create
 		if r.Chance(1, 3) {
